@@ -77,6 +77,19 @@ def _remove_leading_empty_lines(s: str) -> str:
     return "\n".join(lines)
 
 
+def _is_supported_value(value) -> bool:
+    """Check that a generated value only consists of types a flow variable can hold."""
+    if value is None or isinstance(value, (bool, int, float, str)):
+        return True
+    if isinstance(value, (list, tuple, set)):
+        return all(_is_supported_value(v) for v in value)
+    if isinstance(value, dict):
+        return all(
+            _is_supported_value(k) and _is_supported_value(v) for k, v in value.items()
+        )
+    return False
+
+
 class LLMGenerationActionsV2dotx(LLMGenerationActions):
     """Adapted version of LLMGenerationActions for Colang 2.x.
 
@@ -786,9 +799,15 @@ class LLMGenerationActionsV2dotx(LLMGenerationActions):
         log.info("Generated value for $%s: %s", var_name, value)
 
         try:
-            return literal_eval(value)
+            parsed_value = literal_eval(value)
         except Exception:
             raise Exception(f"Invalid LLM response: `{value}`")
+
+        if not _is_supported_value(parsed_value):
+            # e.g. `...` (Ellipsis), bytes or complex numbers cannot be stored in the state
+            raise Exception(f"Invalid LLM response: `{value}`")
+
+        return parsed_value
 
     @action(name="GenerateFlowAction", is_system_action=True, execute_async=True)
     async def generate_flow(
